@@ -67,8 +67,14 @@ public:
     // std::cerr << "[" << index << "," << index % active << "]\n";
     if (mindex == substrate::ThreadPool::getSocket())
       items.getLocal()->push(val);
-    else
-      pushBuffer.getRemote(mindex)->push(val);
+    else {
+      // mindex is a socket: address that socket's buffer, and flush so that
+      // the item leaves the pushing thread's private chunk and becomes
+      // visible to the owning socket
+      pWL* buf = pushBuffer.getRemoteByPkg(mindex);
+      buf->push(val);
+      buf->flush();
+    }
   }
 
   template <typename ItTy>
